@@ -126,6 +126,27 @@ CLAIMED['C19'] = ('HistBins, Gen_C19',
     'Trusted: TLC, value parser; the logicle display transform itself (C18, not claimed); coordinate tolerance 1e-11 of the span.',
     'DESIGN.md 3.3, 4 C19')
 
+CLAIMED['C13'] = ('Heap',
+    'TLA+ object store with Python reference semantics (heap cells for range lists / dictionaries, buffers, accessors that '
+    'hand out references); TLC checks NoSharedMeta, BufSharing, Independent, ReadOnlyPreserves on all histories; histories '
+    'replayed on real objects and the real sharing graph compared; the ReadOnly/Derive actions are instantiated by a '
+    'registry of call recipes for every public callable (inspect-enumerated)',
+    'Model checking of the store model (all histories of <= 3 operations on <= 4 objects) with every history replayed into '
+    'real FCSData objects; plus 170+ call recipes covering all 51 public callables with before/after fingerprints of every '
+    'argument and caller-owned container, sharing analysis of results, and query-order independence on pairs of queries.',
+    'Trusted: TLC, value parser, id()/np.shares_memory observations, fingerprints. Recipes are representative argument '
+    'shapes; a callable without a recipe is reported in evidence (none at present). Recipes that raise are listed, not judged.',
+    'DESIGN.md 3.2, 4 C13')
+CLAIMED['C20'] = ('Heap',
+    'same store model; DupBornEqual + NoSharedMeta + BufSharing + Independent checked by TLC; every history replayed on '
+    'integer and float files with all optional keywords, every duplicate compared attribute by attribute at birth, all '
+    'pickle protocols; file-level equality cases',
+    'Exhaustive over histories of <= 3 operations from 13 derivations, 3 writes through accessors and read-only calls; the '
+    'real store (container identities, buffer sharing, which writes each object sees) must equal the specification store '
+    'after every history and every copy/deepcopy/view/pickle must equal its source in values, dtype, shape and every attribute.',
+    'Trusted: TLC, value parser, id()/np.shares_memory, fingerprint of attributes via public accessors.',
+    'DESIGN.md 3.2, 4 C20')
+
 NOT_APPLICABLE = {
     'C09': 'continuum numerics only (L-BFGS-B recovery of real parameters, real-analytic identities of closures): no '
            'state, history or case analysis for a TLA+ specification to enumerate; discrete fragment (Fit refuses <3 '
